@@ -69,7 +69,7 @@ def make_scene(rnd, g, nfr, ns, nf):
 class C12(object):
     id = "C12"
     engine = "histsim+simomp"
-    tiers = {"quick": {"runs": 3000, "budget_s": 60, "selftest_every": 50, "fresh_selftest": 8},
+    tiers = {"quick": {"runs": 6000, "budget_s": 60, "selftest_every": 50, "fresh_selftest": 8},
              "thorough": {"runs": 600000, "budget_s": 800, "selftest_every": 300, "fresh_selftest": 16}}
     rule = ("one run = one frame history (1..40 frames of 4x4..32x32) through labelimage.peaksearch / output2dpeaks / "
             "mergelast / finalise on the instrumented module (team, strategy, heap garbage, disjoint-set capacity, "
